@@ -288,6 +288,11 @@ def run_pipeline(case, acc, m, graph, pl, cfg, tier, ch):
                                    MinimisationFailedError, Routes)
     from rig.routing_table.remove_default_routes import minimise as rde
     from rig.routing_table.ordered_covering import minimise as oc
+    Cores_ = Cores
+    if cfg["radius"] == 0:
+        # the caller's own name for the core resource (route() takes it as
+        # core_resource; nothing may fall back on the built-in Cores)
+        Cores = "app_cores"
     machine = m.to_rig(chip_resources={Cores: CAP})
     # a device vertex needs no cores: declared with no resources at all or
     # (configurations with radius 1) with an explicit zero
@@ -312,8 +317,12 @@ def run_pipeline(case, acc, m, graph, pl, cfg, tier, ch):
     try:
         try:
             al = allocate_fn(vr, nets, machine, cons, pl)
-            routes = ner.route(vr, nets, machine, cons, pl, al,
-                               radius=cfg["radius"])
+            if Cores is Cores_:
+                routes = ner.route(vr, nets, machine, cons, pl, al,
+                                   radius=cfg["radius"])
+            else:
+                routes = ner.route(vr, nets, machine, cons, pl, al,
+                                   core_resource=Cores, radius=cfg["radius"])
         finally:
             geometry.random, rutils.random = saved
         tables = routing_tree_to_tables(routes, net_keys)
@@ -527,6 +536,32 @@ def run_wrapper(acc, pname, m, gi, graph, busy, rtr, dead, dls):
         InsufficientResourceError, MachineHasDisconnectedSubregion)
     from rig.routing_table import MinimisationFailedError, Routes
     from rig.machine_control.consts import AppState
+    from rig.place_and_route.constraints import SameChipConstraint
+    variants = ["plain"]
+    if rtr == 1023 and gi % 3 == 0:
+        variants.append("cres")
+    if rtr == 1023 and any(n == 0 for n in graph["v"].values()):
+        variants.append("same")
+    for variant in variants:
+        _run_wrapper(acc, pname, m, gi, graph, busy, rtr, dead, dls, variant)
+
+
+def _run_wrapper(acc, pname, m, gi, graph, busy, rtr, dead, dls, variant):
+    import warnings
+    from rig.place_and_route import Cores, SDRAM
+    from rig.place_and_route.wrapper import place_and_route_wrapper, wrapper
+    from rig.place_and_route.constraints import (LocationConstraint,
+                                                 RouteEndpointConstraint,
+                                                 SameChipConstraint)
+    from rig.place_and_route.exceptions import (
+        InsufficientResourceError, MachineHasDisconnectedSubregion)
+    from rig.routing_table import MinimisationFailedError, Routes
+    from rig.machine_control.consts import AppState
+    xkw = {}
+    if variant == "cres":
+        # the caller's own core resource
+        Cores = "app_cores"
+        xkw = dict(core_resource=Cores)
     si = system_info_for(m, busy, rtr)
     vr = {v: ({Cores: n} if n else {}) for v, n in graph["v"].items()}
     va = {v: "app_%s.aplx" % v for v in graph["v"] if graph["v"][v]}
@@ -545,9 +580,13 @@ def run_wrapper(acc, pname, m, gi, graph, busy, rtr, dead, dls):
             cons.append(LocationConstraint(v, chip))
             cons.append(RouteEndpointConstraint(v, Routes(link)))
             endpoint_of[v] = link
+            if variant == "same":
+                # the device shares its chip with the vertex that drives it
+                drv = [s_ for s_, t in graph["nets"] if v in t and s_ != v]
+                cons.append(SameChipConstraint([v, drv[0]]))
     place, kw = placer_fn(pname)
     for which in ("new", "old"):
-        case = dict(part="B", placer=pname, w=m.w, h=m.h,
+        case = dict(part="B", placer=pname, w=m.w, h=m.h, variant=variant,
                     dead_chips=[list(c) for c in dead],
                     dead_links=[list(l) for l in dls], graph=gi,
                     busy={"%d,%d" % c: v for c, v in busy.items()},
@@ -560,7 +599,7 @@ def run_wrapper(acc, pname, m, gi, graph, busy, rtr, dead, dls):
                 if which == "new":
                     pl, al, amap, tables = place_and_route_wrapper(
                         vr, va, nets, net_keys, si, list(cons), place=place,
-                        place_kwargs=dict(kw))
+                        place_kwargs=dict(kw), **xkw)
                 else:
                     if busy:
                         continue
@@ -568,7 +607,7 @@ def run_wrapper(acc, pname, m, gi, graph, busy, rtr, dead, dls):
                                                        SDRAM: 1000})
                     pl, al, amap, tables = wrapper(
                         vr, va, nets, net_keys, machine, list(cons),
-                        place=place, place_kwargs=dict(kw))
+                        place=place, place_kwargs=dict(kw), **xkw)
         except MinimisationFailedError:
             acc.outcome("minimisation_failed")
             if rtr >= 1023 or which == "old":
